@@ -462,3 +462,19 @@ func GenSocks5Session(t *rapid.T, users [][2]string, dstIP [4]byte, dstPort uint
 	out = append(out, byte(dstPort>>8), byte(dstPort))
 	return out
 }
+
+// GenLines produces a few short text lines with every kind of line ending (lengths around the small constants that
+// line-oriented parsers subtract: a request line has a method, a target and a 9-byte protocol suffix).
+func GenLines(t *rapid.T) []byte {
+	var out []byte
+	for i := rapid.IntRange(1, 4).Draw(t, "nlines"); i > 0; i-- {
+		n := rapid.IntRange(0, 14).Draw(t, "lineLen")
+		line := rapid.SliceOfN(rapid.SampledFrom([]byte("GETPOS /*.:01ax \tHTP/")), n, n).Draw(t, "line")
+		if rapid.IntRange(0, 5).Draw(t, "httpSuffix") == 0 {
+			line = append(line, " HTTP/1.1"...)
+		}
+		out = append(out, line...)
+		out = append(out, pick(t, "eol", "\r\n", "\r\n", "\n", "\r", "")...)
+	}
+	return out
+}
